@@ -557,7 +557,7 @@ func (e *evalCtx) fieldStep(cur sval, idx int) sval {
 		if _, isSl := ft.Underlying().(*types.Slice); isSl {
 			// representation invariant of every slice stored in the heap
 			x := v.term
-			e.t.assume(fmt.Sprintf("(and (<= 0 (sl_off %s)) (<= 0 (sl_len %s)) (<= (sl_len %s) (sl_cap %s)) (<= (sl_cap %s) 140737488355328) (<= 0 (sl_arr %s)) (<= (sl_arr %s) %s))", x, x, x, x, x, x, x, e.t.h.get(st, "alloc")))
+			e.t.assume(fmt.Sprintf("(and (<= 0 (sl_off %s)) (<= 0 (sl_len %s)) (<= (sl_len %s) (sl_cap %s)) (<= (sl_cap %s) 140737488355328) (<= (sl_arr %s) %s))", x, x, x, x, x, x, e.t.h.get(st, "alloc")))
 		}
 		return v
 	}
@@ -833,6 +833,17 @@ func (e *evalCtx) callExpr(x *sx) sval {
 		tag := nameTag("callee:"+args[0].val)
 		hv := t.h.reg("ghost:called", "(Array Int Bool)")
 		return boolv(sel(t.h.get(e.st, hv), tag))
+	case "loop_reached":
+		// loop_reached(N): control reached the head of loop N during this activation
+		if args[0].op != "int" && args[0].op != "num" {
+			// fall through to the generic evaluation of the argument
+		}
+		if e.fn != t.fn {
+			return boolv(t.c.declare(t.c.fresh("calleelog"), "Bool"))
+		}
+		n := e.eval(args[0])
+		hv := t.h.reg("ghost:loopreached", "(Array Int Bool)")
+		return boolv(sel(t.h.get(e.st, hv), n.term))
 	case "called_since":
 		// called_since("site", "Name"): a call of that name happened after the given site state
 		if args[0].op != "str" || args[1].op != "str" {
